@@ -1107,3 +1107,58 @@ def outMulBigint (C : CycD T) (a : T) (e : List Nat) : Outcome T := cycExp C a e
 end output
 
 end Ark.Pairing
+
+/-! ## the rest of the public API of `ec/src/pairing.rs`
+
+  `MillerLoopOutput * scalar`, `Valid for PairingOutput`, `CanonicalDeserialize for PairingOutput`,
+  `Sum`, `mul_bits_be`, `PrimeGroup::generator`, `Zeroize`.  (Appended; nothing above is changed.) -/
+namespace Ark.Pairing
+open Ark Ark.Ext
+
+section api
+variable {P T : Type} [Mul T] [Zero T] [One T] [DecidableEq T]
+
+/-- `Field::pow(exp)` (`ff/src/fields/mod.rs`): `res = 1; for bit in BitIteratorBE::without_leading_zeros(exp)
+    { res.square_in_place(); if bit { res *= self } }` — plain square-and-multiply, valid for every field element -/
+def fieldPow (D : FieldD P T) (a : T) (e : List Nat) : T :=
+  ((toBitsBE e).dropWhile (· == false)).foldl (fun res bit => let s := D.square res; if bit then s * a else s) 1
+
+/-- `impl Mul<P::ScalarField> for MillerLoopOutput<P>`: `Self(self.0.pow(other.into_bigint()))` -/
+def mloMul (D : FieldD P T) (f : T) (s : List Nat) : T := fieldPow D f s
+
+/-- `Valid::check` for `PairingOutput`: `self.0.pow(P::ScalarField::characteristic()).is_one()` -/
+def outCheck (D : FieldD P T) (r : List Nat) (a : T) : Bool := decide (fieldPow D a r = 1)
+
+/-- `Valid::batch_check` (not overridden: the trait default of `ark-serialize`, serial build:
+    `for item in batch { item.check()? }`) -/
+def outBatchCheck (D : FieldD P T) (r : List Nat) (l : List T) : Bool := l.all (outCheck D r)
+
+/-- `CanonicalDeserialize for PairingOutput`: `TargetField::deserialize_with_mode(..).map(Self)?`, then
+    `if validate == Validate::Yes { f.check()? }`; `field` is the result of the target field's own deserializer,
+    the error of a failed check is `SerializationError::InvalidData` -/
+def outDeserialize (D : FieldD P T) (r : List Nat) (field : Except String T) (validate : Bool) : Except String T :=
+  match field with
+  | .error e => .error e
+  | .ok f => if validate && !outCheck D r f then .error "invalid" else .ok f
+
+/-- `Sum<Self>` / `Sum<&Self>` (`impl_additive_ops_from_ref!`): `iter.fold(Self::zero(), Add::add)` -/
+def outSum (l : List T) : T := l.foldl outAdd outZero
+
+/-- the limbs `mul_bits_be` rebuilds (after the repair dea047b): the collected big-endian bits are reversed, then
+    `chunks(64)`, bit `i` of a chunk goes to position `i` of the limb — the LAST bit the iterator yields is the
+    least significant bit of limb 0.  (Before the repair the bits were not reversed, so the first bit became the
+    least significant one: `e.mul_bits_be([1, 0]) = e`.)  The name is kept for the driver. -/
+def bitsToLimbsAsCoded (bits : List Bool) : List Nat := (chunks 64 bits.reverse bits.length).map bitsToNat
+
+/-- `PrimeGroup::mul_bits_be` as overridden for `PairingOutput`: `Self(self.0.cyclotomic_exp(&other))` -/
+def outMulBitsBE (C : CycD T) (a : T) (bits : List Bool) : Outcome T := cycExp C a (bitsToLimbsAsCoded bits)
+
+/-- `Zeroize`: `self.0.zeroize()` (the all-zero field element, NOT the group identity) -/
+def outZeroize (_ : T) : T := 0
+
+/-- `PrimeGroup::generator()`: `P::pairing(G1::generator().into(), G2::generator().into())` -/
+def outGenerator {A1 A2 : Type} (E : Engine A1 A2 T) (g1 : A1) (g2 : A2) : Outcome T := E.pairing g1 g2
+
+end api
+
+end Ark.Pairing
